@@ -970,6 +970,13 @@ fn mutants(r: &mut TestRunner, i: usize) -> Vec<Mutant> {
                 }
                 push(&mut out, "unbound-var-other-rule-set", pr(&s), false, true);
             }
+            // … and a variable whose top-level `let` only comes AFTER the rule that uses it
+            let mut s = base.clone();
+            if let Some(rule) = nth_rule_mut(&mut s, pos) {
+                rule.re = cat(rule.re.clone(), Re::Var("later".into()));
+            }
+            s.items.push(Top::Let("later".into(), Re::Char('a')));
+            push(&mut out, "var-used-before-definition", pr(&s), false, true);
         }
         1 => {
             let mut s = base.clone();
@@ -1063,6 +1070,17 @@ fn mutants(r: &mut TestRunner, i: usize) -> Vec<Mutant> {
             }
             if done {
                 push(&mut out, "first-set-not-init", pr(&s), false, false);
+            }
+            // Init exists but is not the first rule set
+            let mut s = base.clone();
+            let sets: Vec<usize> = s.items.iter().enumerate().filter(|(_, t)| matches!(t, Top::RuleSet { .. })).map(|(k, _)| k).collect();
+            if sets.len() >= 2 {
+                let other = sets[1 + pos % (sets.len() - 1)];
+                s.items.swap(sets[0], other);
+                push(&mut out, "init-not-first", pr(&s), false, true);
+            } else if sets.len() == 1 {
+                s.items.insert(sets[0], Top::RuleSet { name: "Before".into(), items: vec![Inner::Rule(Rule { re: Re::Char('q'), ctx: None, kind: Kind::Simple })] });
+                push(&mut out, "init-not-first", pr(&s), false, true);
             }
         }
         7 => {
